@@ -511,7 +511,10 @@ func fdFilestatSetTimesFn(_ context.Context, mod api.Module, params []uint64) ex
 	// Fall back to path based, despite it being less precise.
 	switch errno {
 	case experimentalsys.EPERM, experimentalsys.ENOSYS:
-		errno = f.FS.Utimens(f.Name, atim, mtim)
+		// Only entries opened through a file system have one: stdio and sockets keep the first error.
+		if f.FS != nil {
+			errno = f.FS.Utimens(f.Name, atim, mtim)
+		}
 	}
 
 	return errno
@@ -800,6 +803,9 @@ func fdReadOrPread(mod api.Module, params []uint64, isPread bool) experimentalsy
 
 func readv(mem api.Memory, iovs uint32, iovsCount uint32, reader func(buf []byte) (nread int, errno experimentalsys.Errno)) (uint32, experimentalsys.Errno) {
 	var nread uint32
+	if iovsCount > math.MaxUint32>>3 { // iovsCount * 8 would wrap around: such an array fits in no memory.
+		return 0, experimentalsys.EFAULT
+	}
 	iovsStop := iovsCount << 3 // iovsCount * 8
 	iovsBuf, ok := mem.Read(iovs, iovsStop)
 	if !ok {
@@ -1284,6 +1290,9 @@ func fdWriteOrPwrite(mod api.Module, params []uint64, isPwrite bool) experimenta
 
 func writev(mem api.Memory, iovs uint32, iovsCount uint32, writer func(buf []byte) (n int, errno experimentalsys.Errno)) (uint32, experimentalsys.Errno) {
 	var nwritten uint32
+	if iovsCount > math.MaxUint32>>3 { // iovsCount * 8 would wrap around: such an array fits in no memory.
+		return 0, experimentalsys.EFAULT
+	}
 	iovsStop := iovsCount << 3 // iovsCount * 8
 	iovsBuf, ok := mem.Read(iovs, iovsStop)
 	if !ok {
